@@ -210,6 +210,7 @@ func WorkerMain() {
 		trace    = flag.Bool("trace", false, "print the trace in replay mode")
 		gen      = flag.Uint64("gen", 0, "print the scenario generated from this seed and exit")
 		one      = flag.Uint64("one", 0, "run exactly the scenario generated from this seed (used by the driver after a worker process died)")
+		hashOnly = flag.Bool("hash", false, "with -one: print the trace hash of that scenario and exit (determinism self-test)")
 		detEvery = flag.Int64("det-every", 50, "re-execute every n-th scenario from its recorded tape and compare traces")
 		search   = flag.Int("search", 0, "with -replay: if >0, ignore the stored schedule and try this many fresh schedules, looking for the expected violation class; the first failing scenario is written to -save")
 		save     = flag.String("save", "", "with -search: where to write the failing scenario")
@@ -360,6 +361,15 @@ func WorkerMain() {
 		}
 		res.LastSeed = seed
 		violFile := fmt.Sprintf("%s/viol-%d.json", *out, *offset)
+		if *one != 0 && *hashOnly {
+			x := RunOne(w, s, false, false)
+			v := "-"
+			if x.Out.Violation != nil {
+				v = x.Out.Violation.Class
+			}
+			fmt.Printf("seed=%d trace=%016x sig=%016x steps=%d switches=%d violation=%s\n", seed, x.Out.TraceHash, x.Out.SigHash, x.Out.Steps, x.Out.Switches, v)
+			os.Exit(0)
+		}
 		if *one != 0 {
 			c := s.Clone()
 			c.Expect = &scn.Violation{Class: "process-crash", Detail: "the process running this scenario died"}
